@@ -82,7 +82,7 @@ theorem path_is_reference_record {κ} (cols : List Level) (recs : List (List Nod
     (hrec : recs ≠ []) (hv : VoteOK (fromRecordsRaw cols recs) vote) :
     ∃ rs, runLevelLoop (fromRecordsRaw cols recs) vote cells = .ok rs ∧ rs.length = cells.length ∧
       ∀ r ∈ rs, r.map (·.2.assignment) ∈ recs := by
-  have w := fromRecordsRaw_wf hc hne hr hn
+  have w := fromRecordsRaw_wf hc hne hr hn hrec
   have hnode := hasNode_fromRecords hc hne hr hn hrec
   obtain ⟨rs, h1, h2, h3⟩ := path_of_validate _ vote cells w.valid w.hNodup w.dict hnode hv
   exact ⟨rs, h1, h2, fun r hr' => (fromRecordsRaw_paths hc hne hr hn _).1 (h3 r hr').2⟩
@@ -216,13 +216,16 @@ example : ∃ out, mapPipeline exTree { dropLevel := some 1, chunkSize := 2, nPr
       exTree_accepted.2.2.1 exTree_accepted.2.2.2 (exVote_ok _) rfl
       (by decide) (by decide) (by decide) (by decide)
 
-/-- The side condition `HasNode` cannot be dropped from "every taxonomy the tree
-validator accepts ... is mapped without error": the taxonomy with one level and
-no node is accepted by `validate_taxonomy_tree` (`Bridge.emptyTree_discrepancy`),
-and the level loop fails on it for every non-empty query, with the
+/-- The side condition `HasNode` was not implied by acceptance until `fix:`
+6649211: the taxonomy with one level and no node used to be accepted by
+`validate_taxonomy_tree` (`Bridge.emptyTree_discrepancy`; now refused with
+"taxonomy has no nodes at its top level", model `.noNodes`, so that `HasNode`
+follows from acceptance — `Bridge.hasNode_of_valid`), and the level loop fails
+on it for every non-empty query, with the
 `RuntimeError("Not sure how to proceed ...")` of `run_type_assignment`. -/
 theorem validated_empty_taxonomy_not_mapped {κ} (vote : Oracle κ) (c : κ) (cells : List κ) :
-    emptyTree.validate = .ok () ∧ runLevelLoop emptyTree vote (c :: cells) = .error .noChildren := by
+    emptyTree.validate = .error .noNodes ∧
+      runLevelLoop emptyTree vote (c :: cells) = .error .noChildren := by
   refine ⟨by rfl, ?_⟩
   obtain ⟨cs, hcs⟩ := selectCells_ok (c :: cells) (List.range (cells.length + 1))
     (fun j hj => by simpa using hj)
